@@ -324,7 +324,7 @@ Section Lower.
   Fixpoint insert_by_id {A} (x : N * A) (l : list (N * A)) : list (N * A) :=
     match l with
     | [] => [x]
-    | y :: r => if N.ltb (fst x) (fst y) then x :: l else y :: insert_by_id x r
+    | y :: r => if N.leb (fst x) (fst y) then x :: l else y :: insert_by_id x r
     end.
   Definition sort_by_id {A} (l : list (N * A)) : list (N * A) := fold_right insert_by_id [] l.
   Definition order_bounds {A} (hs : list (N * bool)) (rs : list A) : list A :=
